@@ -424,6 +424,15 @@ def ord1(ctx, pid, cls):
 # ---------------------------------------------------------------------------
 # RSRC  readers answer from the known state only
 # ---------------------------------------------------------------------------
+def _mutable_display(e):
+    if isinstance(e, (ast.Dict, ast.List, ast.Set, ast.DictComp, ast.ListComp, ast.SetComp)):
+        return True
+    if isinstance(e, ast.Call):
+        nm = e.func.attr if isinstance(e.func, ast.Attribute) else (e.func.id if isinstance(e.func, ast.Name) else "")
+        return nm in ("dict", "list", "set", "defaultdict", "OrderedDict", "bytearray", "deque", "SortedSet", "Counter", "WeakValueDictionary", "WeakKeyDictionary")
+    return False
+
+
 @rule("RSRC", list(READERS))
 def rsrc(ctx, pid):
     """A reader (and everything it calls) consults only the declared state of its object (db, root, configuration):
@@ -452,9 +461,20 @@ def rsrc(ctx, pid):
             if not (isinstance(node, ast.Attribute) and isinstance(node.ctx, ast.Load)):
                 continue
             t = ctx.R.type_of(node.value, f)
-            if not t or t[0] != "inst":
+            if not t or t[0] not in ("inst", "cls"):
                 continue
             cls = t[1]
+            if not hasattr(cls, "class_attrs"):
+                continue
+            # a class-level attribute that holds a mutable container is shared by every instance: read through
+            # the instance or through the class, it is state outside (db, root, configuration)
+            cav = cls.class_attrs.get(node.attr)
+            if cav is not None and _mutable_display(cav) and node.attr not in cls.methods:
+                n_loads += 1
+                bad = bad or (f, node, cls, node.attr)
+                continue
+            if t[0] == "cls":
+                continue
             if not any(k[0] == cls.qual for k in spec.STATE):
                 continue  # classes without declared state (exceptions, named tuples)
             n_loads += 1
